@@ -119,3 +119,30 @@ Definition C16_login_returns_registration_export_key_statement {E Sc Pk Sk} (CS 
 Theorem C16_login_returns_registration_export_key_at_each_of_the_20_suites : all_suites (fun _ _ _ _ CS => CurveLaws CS -> C16_login_returns_registration_export_key_statement CS).
 Proof. apply at_the_20_suites. exact C16_login_returns_registration_export_key. Qed.
 Print Assumptions C16_login_returns_registration_export_key_at_each_of_the_20_suites.
+
+(* ---------------------------------------------------------------- stability against an adversary
+   Whoever serves the login and whatever the client types: if the client's final step opens the envelope sealed at
+   registration, it returns that registration's export key, or a collision of HMAC / HKDF-Expand is exhibited
+   (Theory/ExportStable.v).  Together with C16_separated_from_other_registrations: the export key of a login is the
+   export key of the registration whose envelope it opened, and of no other. *)
+From OKE Require Import Bad ClientAccept ExportStable.
+Theorem C16_export_key_stable_against_any_server :
+  forall E Sc Pk Sk (CS : Suite E Sc Pk Sk), HashLaws (hash CS) ->
+  forall tape rp spk ids env cpk ek rest rp' spk' ids' kp ek' u s,
+    envelope_seal CS tape rp spk ids = Ok (env, cpk, ek, rest) ->
+    envelope_open CS env rp' spk' ids' = Ok (kp, ek', u, s) ->
+    ek' = ek \/ BadS CS.
+Proof. exact @export_key_stable_against_any_server. Qed.
+Print Assumptions C16_export_key_stable_against_any_server.
+
+Theorem C16_login_export_key_is_the_registrations :
+  forall E Sc Pk Sk (CS : Suite E Sc Pk Sk), HashLaws (hash CS) ->
+  forall creg tape pw rr ids ksf upload ek spk rest clog pw' r ctx ids' ksf' fin sk ek' spk' dbg,
+    client_registration_finish CS creg tape pw rr ids ksf = Ok (upload, ek, spk, rest) ->
+    client_login_finish CS clog pw' r ctx ids' ksf' = Ok (fin, sk, ek', spk', dbg) ->
+    exists rp' mk env kp u s,
+      unmask_response CS mk (cr_masking_nonce r) (cr_masked r) = Ok (spk', env) /\
+      envelope_open CS env rp' spk' ids' = Ok (kp, ek', u, s) /\
+      (env = ru_envelope upload -> ek' = ek \/ BadS CS).
+Proof. exact @login_export_key_is_the_registrations. Qed.
+Print Assumptions C16_login_export_key_is_the_registrations.
